@@ -141,6 +141,12 @@ def instance_fails(kind, desc, sig):
 
 def run(ctx):
     ctx.prove(props=["C04", "C04_forms"])
+    # models regenerated from the source of the three get_sufficient_penalty methods (and get_qubo), proved equal to
+    # Penalty.S_arc / S_path / S_seq and to the default-penalty QUBO of the C04 theorems (notes/C02_gen.md)
+    import translate_getqubo as TG
+    ctx.gen_step("suffpen", TG.translate_suffpen, "C04_gen",
+                 "harness/translate_getqubo.py (ast -> Gallina printer for sum(... for ...) generator expressions, np.fabs, len, "
+                 "**, dict.values(), method calls as oracle parameters, into the value combinators of coq/theories/PyMat.v)")
     rng = ctx.rng
     count = 300 if ctx.quick else 6000
     max_n = 14 if ctx.quick else 18
